@@ -182,6 +182,8 @@ def make_case(rng, big=False, small=False):
             extra += opts["time_margin"]
         if not grid:
             extra += 2.0 / td + rng.uniform(0, 1)
+        elif rng.random() < 0.25:
+            extra += rng.choice([0.37, 0.5, 0.81]) / td          # the end time falls inside a frame
         e = last + extra
         if rng.random() < 0.05:
             e = last - 1.0 / td                              # documented rejection
